@@ -113,7 +113,9 @@ def build_b(d):
     state = grammar.state_from(old, inc0=d.choice([0, 1, 9]), inc1=d.choice([1, 2, 10]), patch=d.choice([0, 3]),
                                bid=d.choice(["1001", "1999", "0100"]), tag=d.choice(["final", "beta"]))
     return {"ast": nodes, "state": state, "old": ref_render(nodes, state), "date": new.isoformat(),
-            "patch": any(p == "PATCH" for p in parts_of(nodes)), "cli": d.chance(1, 10)}
+            "patch": any(p == "PATCH" for p in parts_of(nodes)), "cli": d.chance(1, 10),
+            # --pin-date: the calendar parts must stay exactly as they are
+            "pin_date": d.chance(1, 6)}
 
 
 def cal_of(ast, st):
@@ -129,7 +131,7 @@ def check_b(case):
     old_date = grammar.date_of(state)
     classes = ["new<old" if date < old_date else "new>old" if date > old_date else "same-day"]
     if case["cli"]:
-        args = ["test", case["old"], pattern, "--date", case["date"]] + (["--patch"] if case["patch"] else [])
+        args = ["test", case["old"], pattern, "--date", case["date"]] + (["--patch"] if case["patch"] else []) + (["--pin-date"] if case.get("pin_date") else [])
         r = bv.run(args, today=date)
         if r.crashed:
             return viol("test-crashes", {}, {"args": args, "res": r.summary()})
@@ -139,7 +141,7 @@ def check_b(case):
         bv_version.TODAY = date
         logging.disable(logging.CRITICAL)
         try:
-            N = v2version.incr(case["old"], pattern, patch=case["patch"], maybe_date=date)
+            N = v2version.incr(case["old"], pattern, patch=case["patch"], maybe_date=date, pin_date=bool(case.get("pin_date")))
         except Exception as ex:
             return viol("incr-raises", {"exc": type(ex).__name__}, {"pattern": pattern, "old": case["old"], "date": case["date"], "exc": repr(ex)})
         finally:
@@ -155,6 +157,11 @@ def check_b(case):
     detail = {"pattern": pattern, "old": case["old"], "date": case["date"], "new": N, "old_cal": old_cal, "date_cal": new_cal, "new_cal": got}
     if got < old_cal:
         return viol("bump-moved-calendar-parts-backwards", {}, detail, classes=tuple(classes))
+    if case.get("pin_date"):
+        classes.append("pin-date")
+        if got != old_cal:
+            return viol("pinned-calendar-parts-changed", {}, detail, classes=tuple(classes))
+        return ok(nt=date != old_date, classes=tuple(classes))
     in_future = old_cal > new_cal
     if in_future:
         classes.append("old-in-future")
